@@ -30,6 +30,13 @@ def case_hier(B, cfg):
     hl = H['hl']
     n_ids = H['n_ids']
     x, names, ids = hier.vector(B, hl)
+    xarr = ps.arr
+    if cfg.get('int_vector'):
+        # the whole vector handed over as an array of an integer dtype (a
+        # list of Python ints, np.arange ...): an integer vector is a vector
+        xarr = ps.int_arr
+        if not B.symbolic:
+            x = [float(max(1, int(round(3 * abs(v))))) for v in x]
     B.fact('len(names)=n_parameters', len(names) == len(x),
            '%d vs %d' % (len(names), len(x)))
     B.fact('len(ids)=n_parameters', len(ids) == len(x),
@@ -65,7 +72,7 @@ def case_hier(B, cfg):
     for i in range(n_ids):
         ref = ref + H['lls'][i](ps.arr(B, psi[i]))
     try:
-        value = hl(ps.arr(B, x))
+        value = hl(xarr(B, x))
     except Exception as e:
         B.fact('no-exception:__call__', False, repr(e))
         return
@@ -73,7 +80,7 @@ def case_hier(B, cfg):
     if cfg.get('posterior', True):
         prior = SymPrior(B, n_top)
         post = chi.HierarchicalLogPosterior(hl, prior)
-        pv = post(ps.arr(B, x))
+        pv = post(xarr(B, x))
         B.eq('posterior=prior(top)+likelihood', pv,
              prior(x[n_bottom:]) + ref)
         B.fact('posterior names', post.get_parameter_names(include_ids=True)
@@ -155,6 +162,21 @@ def jobs(tier):
             out.append(('hier', 'case_hier', dict(units=c, n_ids=n_ids), {}))
     for c in extra_quick():
         out.append(('hier', 'case_hier', dict(units=c, n_ids=2), {}))
+    # the parameter vector as an array of an integer dtype
+    U = hier.unit
+    for c in ([U('lognormal_nc'), U('gaussian')],
+              [U('gaussian_nc'), U('lognormal_nc')],
+              [U('gaussian_nc'), U('pooled')], [U('lognormal_nc', 2)],
+              [U('hetero'), U('gaussian_nc')],
+              [U('lognormal_nc'), U('gaussian'), U('lognormal_nc')],
+              [U('gaussian_nc', 1, 1), U('lognormal')]):
+        out.append(('hier', 'case_hier', dict(
+            units=c, n_ids=2, int_vector=True, posterior=False),
+            {'diffcheck': False}))
+        if len(c) == 1:
+            out.append(('hier', 'case_hier', dict(
+                units=c, n_ids=2, int_vector=True, bare=True,
+                posterior=False), {'diffcheck': False}))
     # fixed population parameters
     fix_comps = comps[::5] if tier == 'quick' else comps[::2]
     for j, c in enumerate(fix_comps):
@@ -169,7 +191,8 @@ BOUNDS = dict(
           'sub-models from {gaussian, lognormal_nc, pooled, hetero}, 2 individuals with different '
           'sampling times; a third of the covariate variants (1 covariate); '
           'every 5th composition with one fixed population parameter; bare '
-          '(non-composed) models',
+          '(non-composed) models; 8 compositions with the vector handed over '
+          'as an integer array',
     thorough='sequences of <= 3 sub-models of total dimension 2 and 3, '
              '1..3 individuals, covariate variants with 1-2 covariates, every '
              '2nd composition with a fixed parameter',
